@@ -67,4 +67,10 @@ CHECKS = {
   "text": "Generated MODEL / alternate-location inputs (2-4 conformations, letters and digits as tags, partial and whole-residue alternates, point mutants in any conformation, missing atoms/residues, identical models, single conformation): every conformation must keep its atoms, gain the atoms it lacks from conformations with the same residue type at that position and never hold two residue types at one position; the average must hold exactly one group per site occurring anywhere, with pKa, desolvation, buried, counts and per-partner determinant sums equal to the arithmetic mean over the conformations that contain the group; single conformation == average; identical models == single model.",
   "note": "Per-conformation records are taken as ground truth (checked by C01/C02). Groups bridged in only some conformations are not compared. Fixed findings F6 (divisor / missing groups) and F13 (shadowed donor atoms) are regression cases.",
  },
+ "C12": {
+  "level": "fault_enumeration",
+  "technique": "exhaustive enumeration of atom-deletion faults per residue type (54,512 truncated peptides) + Hypothesis-generated multi-residue deletions, judged by 'no exception' and the independent census of C01; exhaustive list of rejection cases",
+  "text": "Every subset of the atoms of each of the 20 residue types inside GLY-X-GLY, and of the 7 ionizable types as N-terminal and C-terminal residue, is deleted (exhaustive); generated structures with ligands, ions and several chains lose single atoms, side chains, backbone atoms, termini, whole residues or ligand atoms at 2-60 %; each truncated input must run to completion and report exactly the sites whose defining atom remains. Empty / atom-free inputs and unknown file types must raise ValueError and nothing else.",
+  "note": "Exhaustive only for single-residue truncations on one backbone geometry; multi-residue truncations are sampled. Trusts vlib/census.py.",
+ },
 }
